@@ -224,6 +224,11 @@ impl<W: 'static, R: 'static, T: 'static> XGenerator<W, R, T> {
                     let inner: BIter<_, _, _> = Box::new(gen._iter(ns, rt.clone()));
                     inner
                 })
+                // repeating an empty generator yields nothing instead of spinning forever
+                .map_while(|inner| {
+                    let mut inner = inner.peekable();
+                    inner.peek().is_some().then_some(inner)
+                })
                 .flatten()
             }),
             Self::TakeWhile(gen, func) => either_j({
